@@ -48,12 +48,18 @@ META = {
         "raises on any payload (C27_matcher_never_raises; the check is evaluated on every case); (4) C27_compile_total. "
         "The full statement is REFUTED for the code as found by six vm_compute witnesses (C27_*_refuted_*), each reproduced "
         "on the real code: one (falsy constant attribute) was fixed in /repo during the build (19f27a5), five are listed known "
-        "findings (all repaired in /repo meanwhile). (5) C27_rewrite_equiv_partial + C27_no_match_equiv, for every configuration with "
-        "pdl_interp.erase and type-range handling (C27-4, C27-5): under the match side conditions and the executable static check "
-        "rewrite_static_ok (evaluated on every case), if the direct application rewrites the payload the converted matcher + "
-        "rewriter produce exactly the same payload, and no match stays no match; proved by a statement-by-statement simulation "
-        "(C27_rewriter_simulates_direct_rewrite). Left open: the direction in which the direct rewrite raises (ill-typed "
-        "rewrites): there the evidence is the correspondence and a model test. "
+        "findings (all repaired in /repo meanwhile). (5) Rewrite equivalence, for every configuration with pdl_interp.erase and "
+        "type-range handling (C27-4, C27-5), under the match side conditions and the executable static check rewrite_static_ok "
+        "(evaluated on every case): C27_rewrite_equiv -- FULL equality of every outcome (rewritten payload, no match, exception) "
+        "of the direct application and of the converted matcher + rewriter, for the rewrites accepted by the executable check "
+        "rewrite_frag_ok (replacement by values, erasure, new operations incl. nested creation, replacement operations with "
+        "declared or inferred result types -- everything but ill-typed rewrites: a pdl.result index beyond the results of the "
+        "new operation, a replacement with results for a root without results); C27_rewrite_equiv_partial + C27_no_match_equiv -- for "
+        "ALL rewrites of the language: if the direct application rewrites the payload the converted one produces exactly the "
+        "same payload, and no match stays no match (proved by a statement-by-statement simulation, "
+        "C27_rewriter_simulates_direct_rewrite). Left open: the direction 'direct rewrite raises' for the ill-typed rewrites outside "
+        "the fragment (there the two real paths differ as well), re-used pdl.result values: evidence there is the "
+        "correspondence and a model test. "
         "Tie: hand-written model with one flag per repair (probed on /repo at every run) vs the real code: conversion output "
         "compared instruction by instruction, one match_and_rewrite of both real paths at every operation of generated and "
         "corpus payloads compared with the model (outcome + resulting IR)."),
@@ -72,7 +78,7 @@ META = {
         "null value / erase)."),
 }
 COQ_TARGETS = ["C27/Enc.vo", "C27/ProofsChain.vo", "C27/ProofsOrder.vo", "C27/ProofsMatch.vo", "C27/ProofsGuard.vo", "C27/ProofsTotal.vo", "C27/Proofs.vo", "C27/ProofsEnv.vo", "C27/ProofsRewrite.vo",
-               "C27/ProofsRewriteTop.vo", "Props/C27.vo"]
+               "C27/ProofsRewriteFull.vo", "C27/ProofsRewriteTop.vo", "Props/C27.vo"]
 REQ = ["C27.Model", "C27.Enc", "C27.ProofsGuard", "C27.ProofsRewriteTop"]
 ASSUMPTIONS = [
     "match theorem: the side conditions of Proofs.match_side_conditions (truthy constants or repair C27-1; no name in both "
@@ -80,6 +86,8 @@ ASSUMPTIONS = [
     "pdl.operation / pdl.result value once in the tree, no re-used pdl.result value, pdl.result indices within the declared types)",
     "no-raise theorem: the executable static check compile_guarded holds for the pattern (evaluated on every case of every run)",
     "compile_total: the rewrite part refers only to existing values (rewrite_refs_ok, executable)",
+    "rewrite theorems: repairs C27-4 and C27-5 present (fx_erase, fx_range, fx_infer), the match side conditions, and the "
+    "executable static checks rewrite_static_ok (all patterns) / rewrite_frag_ok (full equality), both evaluated on every case",
 ]
 TRUSTED = ["the vocabulary mapping ids <-> operation names / attribute values / types of the harness",
            "Python truth value of an attribute constant is encoded in the sign of its id (checked against bool(attr) for corpus constants)"]
@@ -933,6 +941,46 @@ def _red(r):
     return [2] if r[0] == 2 else r
 
 
+def in_full_fragment(p) -> bool:
+    """rewrite_frag_ok of ProofsRewriteTop.v recomputed from the case: the patterns for which C27_rewrite_equiv
+    (full equality of every outcome) is proved"""
+    used_o = {x[1] for x in pattern_edges(p, "free")}
+    used_r = {x[1] for x in pattern_edges(p, "res")}
+    used_t = {t for o in pattern_ops(p) for t in o["rtys"]} | {p["ovars"][v] for v in used_o if p["ovars"][v] is not None}
+    used_a = {a for o in pattern_ops(p) for _, a in o["attrs"]}
+
+    def reached(ref):
+        return ref[0] == "l" or ref[1] in {"mo": used_o, "mr": used_r, "ma": used_a, "mt": used_t}[ref[0]]
+
+    frag = True
+    tenv: dict = {}
+    rw = p["rw"]
+    for i, s in enumerate(rw):
+        later = rw[i + 1:]
+        if s[0] == "replace_vals" and not s[1]:
+            frag = False
+        if s[0] == "replace_op" and not p["root"]["rtys"] and tenv.get(s[1]) != 0:
+            frag = False      # a root without result types: the replacement must be known to have no results
+        if s[0] == "result":
+            n = tenv.get(s[2])
+            if n is None or not (0 <= s[3] < n):
+                frag = False
+        if s[0] == "op":
+            frag = frag and all(reached(v) for v in s[3]) and all(reached(a) for _, a in s[4]) and all(reached(t) for t in s[5])
+        if s[0] == "replace_vals":
+            frag = frag and all(reached(v) for v in s[1])
+        # static result counts of the new operations (tstep of ProofsRewriteFull.v)
+        if s[0] in ("attr", "type", "result"):
+            tenv[s[1]] = None
+        elif s[0] == "op":
+            # declared types, or inferred from the root (typeless replacement), or none
+            tenv[s[1]] = (len(s[5]) if s[5] else
+                          (len(p["root"]["rtys"]) if any(x[0] == "replace_op" and x[1] == s[1] for x in later) else 0))
+        else:
+            tenv = {}
+    return frag
+
+
 def impl_convert(case):
     """[dump of the real conversion, 1 if it succeeded]; the model side puts `compile_guarded` (the static
     no-raise check of ProofsGuard.v on ITS compiled chain) in the second slot: a compiled pattern whose chain
@@ -941,14 +989,16 @@ def impl_convert(case):
     d = _red(dump_conversion(pattern_text(case["p"], V), V))
     ok = 1 if d[0] == 0 else 0
     # third slot: the static hypothesis of C27_rewrite_equiv_partial (rewrite_static_ok) is expected to hold for every
-    # pattern that converts
-    return [d, ok, ok]
+    # pattern that converts; fourth slot: rewrite_frag_ok (the fragment of the full-equality theorem C27_rewrite_equiv),
+    # recomputed independently from the case
+    frag = in_full_fragment(case["p"])
+    return [d, ok, ok, 1 if frag else 0]
 
 
 def coq_convert(case):
     fx, p = coq_fixes(FX), coq_pattern(case["p"])
     return (f"L (cons (c27_convert {fx} {p}) (cons (sB (compile_guarded {fx} {p})) "
-            f"(cons (sB (rewrite_static_ok {fx} {p})) nil)))")
+            f"(cons (sB (rewrite_static_ok {fx} {p})) (cons (sB (rewrite_frag_ok {fx} {p})) nil))))")
 
 
 def impl_apply(case):
@@ -1513,6 +1563,14 @@ def run(ctx: Ctx):
         cases = [c for c in cases if c["p"].get("name") != "matcher"]
     fam = differential(ctx, DiffSpec("convert+apply(generated,corpus)", REQ, cases, impl, coq_expr, holds, known, nontrivial,
                                      shard=120))
+    conv_cases = [c for c in cases if c["k"] == "convert"]
+    stats["patterns_in_full_equality_fragment (C27_rewrite_equiv)"] = sum(1 for c in conv_cases if in_full_fragment(c["p"]))
+    stats["patterns_checked_for_static_hypotheses"] = len(conv_cases)
+    # static part of Proofs.match_side_conditions (computed here only, for the record): no re-used pdl.result value,
+    # every pdl.result index within the declared result types
+    stats["patterns_meeting_the_static_match_conditions"] = sum(
+        1 for c in conv_cases
+        if not pattern_edges(c["p"], "reuse") and all(0 <= x[2] < len(x[3]["rtys"]) for x in pattern_edges(c["p"], "res")))
     ctx.coverage["generation"] = stats
 
     # TEST (not a theorem) of the rewrite-equivalence statement on the model with every proposed repair present:
